@@ -1,0 +1,25 @@
+//! Verification-only entry points, compiled only with `--cfg astrolabe_verif`.
+//!
+//! They expose *inputs* the public API reads from the environment (the wall clock seen by
+//! [`CronSchedule`](crate::CronSchedule)), never internals.
+
+use crate::DateTime;
+use std::cell::Cell;
+
+thread_local! {
+    static CRON_NOW: Cell<Option<DateTime>> = const { Cell::new(None) };
+}
+
+/// Pins the clock read by `CronSchedule::next` on this thread.
+pub fn set_cron_now(now: DateTime) {
+    CRON_NOW.with(|c| c.set(Some(now)));
+}
+
+/// Lets `CronSchedule::next` read the system clock again.
+pub fn clear_cron_now() {
+    CRON_NOW.with(|c| c.set(None));
+}
+
+pub(crate) fn cron_now() -> Option<DateTime> {
+    CRON_NOW.with(|c| c.get())
+}
